@@ -744,7 +744,8 @@ class CursedHR:
                 if entry_line == -1:
                     display_entries.append(new_lines[-1])
                 else:
-                    display_entries += new_lines[entry_line:]
+                    # the entry may have fewer lines than when entry_line was taken (resize, prefix toggled)
+                    display_entries += new_lines[min(entry_line, len(new_lines) - 1) :]
             else:
                 display_entries += new_lines
 
